@@ -7,6 +7,8 @@ CONSTANTS
   Weak_CommitWithoutMempoolLock = FALSE
   Weak_NoFlushBeforeCommit = FALSE
   Weak_NoEndHeightRepair = FALSE
+  Weak_HandshakeAcceptsAppAhead = FALSE
+  Weak_EmptyStoreAcceptsAppAhead = FALSE
 INIT Init
 NEXT Next
 CHECK_DEADLOCK FALSE
